@@ -30,6 +30,16 @@ def opBasis : Op := do
       List.ofFn fun (x : Fin n) => derivCoupling guard dV c E p q x).flatten).flatten
   pure (oTab c ++ oList force ++ oList fm ++ oList dc)
 
+/-- `track N L ref0(N×N) [coeff(N×N)]×L` → the L tracked sets (each N×N) -/
+def opTrack : Op := do
+  let N ← nat
+  let L ← nat
+  let ref0 ← tab N N
+  let mut cs : Array (Tab Float N N) := #[]
+  for _ in [0:L] do
+    cs := cs.push (← tab N N)
+  pure ((track ref0 cs.toList).flatMap oTab)
+
 /-- `mv <entry> p1 p2 p3 p4 k x` → V-entry, dV-entry (and the pinned dV-entry for models W, Z)
     entries: 0 simple11(A,B) 1 simple12(C,D) 2 dual22(A,B,E0) 3 dual12(C,D) 4 ext12(B,C) 5 super(v)
              6 modelx11(a,b,xp) 7 modelx22 8 modelx33 9 gauss(c; y=x+p2) 10 models11(a,b,xp) 11 models33(a,d) 12 models12(c,xp)
@@ -75,6 +85,6 @@ def opVib : Op := do
   pure ([oF (vibDiag e1 om k1 an X th), oF (vibDiag e2 om k2 an X th), oF (vibV12 lamb r0 th)] ++
         oVec (vibDiagDmode om k1 X) ++ oVec (vibDiagDmode om k2 X) ++ [oF (vibDiagDtheta an th), oF (vibD12theta lamb r0 th)])
 
-def tableI : List (String × Op) := [("basis", opBasis), ("mv", opModelEntry), ("sub2d", opSub2d), ("vib", opVib)]
+def tableI : List (String × Op) := [("basis", opBasis), ("track", opTrack), ("mv", opModelEntry), ("sub2d", opSub2d), ("vib", opVib)]
 
 end Mud.Exec
